@@ -60,7 +60,9 @@ def run(chk):
         gen_and_replay(chk, f"gen-pre2-d2-n{n}", n, 4, "full", pre=1)
     if not quick:
         for n in (2, 3):
-            gen_and_replay(chk, f"gen-d3-n{n}", n, 3, "small", ids=(1, 2, 3), timeout=1800)
+            # depth 3 over three ids (two of them share a shard for n = 2): 40 operations drawn per state (the complete
+            # alphabet gives 8e6 behaviours of depth 3 - more than can be replayed)
+            gen_and_replay(chk, f"gen-d3-n{n}", n, 3, "small", ids=(1, 2, 3), sim=40, timeout=1800)
     # 4. long random behaviours
     sims = [(2, 40, 60)] if quick else [(n, 300, 150) for n in (1, 2, 3, 4, 5)]
     for n, depth, num in sims:
